@@ -16,6 +16,7 @@
 -/
 import PdtModel.Model.Reader
 import PdtModel.Model.Represent
+import PdtModel.Model.Blocks
 namespace Pdt.Json
 open Pdt Pdt.Reader Pdt.Represent
 
@@ -150,6 +151,13 @@ def precursorPVal (p : Precursor) : PVal :=
          (sColumns, .dict (dictOfList (precursorColumns p))),
          (sDestinations, .dict (p.destinations.map (fun d => (d, PVal.none))))]
 
+/-- the same dict with each column's value given as *observed* (the harness classifies the numpy array of the
+    real precursor: dtype float64 or not, and the exact type of every `.tolist()` element) -/
+def precursorPValObs (name : Str) (cols : List (Str × Str × PVal)) (dests : List Str) : PVal :=
+  .dict [(sName, .str name),
+         (sColumns, .dict (dictOfList (cols.map colEntry))),
+         (sDestinations, .dict (dests.map (fun d => (d, PVal.none))))]
+
 /-- `make_table_json_data` after a successful `make_table_json_precursor` -/
 def ofPrecursor (p : Precursor) : Except PyExc JVal := toJsonSerializable (precursorPVal p)
 
@@ -168,6 +176,13 @@ def tablePVal (t : TableVal) : PVal :=
          (sDestinations, .dict (dictOfList (t.destinations.map (fun d => (d, PVal.none))))),
          (sColumns, .dict (dictOfList (t.columns.map (fun c =>
             colEntry (c.name, c.unit, .list (c.values.map valPVal))))))]
+
+/-- the same dict with the elements of `list(table.df[cname])` given as *observed* Python values (the harness
+    classifies each element by its exact type; a numpy scalar would arrive as `.npscalar`) -/
+def tablePValObs (name : Str) (dests : List Str) (cols : List (Str × Str × List PVal)) : PVal :=
+  .dict [(sName, .str name),
+         (sDestinations, .dict (dictOfList (dests.map (fun d => (d, PVal.none))))),
+         (sColumns, .dict (dictOfList (cols.map (fun c => colEntry (c.1, c.2.1, .list c.2.2)))))]
 
 /-- `table_to_json_data(table)` -/
 def ofTable (t : TableVal) : Except PyExc JVal := toJsonSerializable (tablePVal t)
@@ -292,5 +307,33 @@ def toTable (ext : Ext) (fi : Int → Str) (j : JVal) : Except PyExc Precursor :
   let g ← toGrid fi j
   let (p, _) ← makeTable ext g freshFixer
   pure p
+
+/-! ## parse_blocks: the `to` argument as text (`_table_handlers[to]`) -/
+
+open Pdt.Blocks in
+/-- `_table_handlers[to]`: the keys are the translated `TABLE_HANDLERS` keys -/
+def formOf (s : Str) : Option Form :=
+  if !Gen.tableHandlerKeys.contains s then none
+  else if s = "pdtable".toList then some .pdtable
+  else if s = "jsondata".toList then some .jsondata
+  else if s = "cellgrid".toList then some .cellgrid
+  else none
+
+/-- the class `parse_blocks` raises for a key that is not there (translated from the `except KeyError` arm) -/
+def unknownFormExc : PyExc :=
+  if Gen.unknownFormRaises = "ValueError" then .valueError else .other Gen.unknownFormRaises.toList
+
+open Pdt.Blocks in
+/-- what the first `next()` on `parse_blocks(rows, to=…)` does -/
+inductive Started
+  | rejected (e : PyExc)        -- raised before the row iterator is advanced
+  | running (r : Result)        -- the handlers are set up and the rows are read
+
+open Pdt.Blocks in
+/-- `parse_blocks` with `to` given as text: the handler lookup comes first and does not look at the rows -/
+def parseBlocksStr (cfg : Config) (to : Str) (rows : List Row) (f : Fixer) : Started :=
+  match formOf to with
+  | none => .rejected unknownFormExc
+  | some fm => .running (parseBlocks { cfg with form := fm } rows f)
 
 end Pdt.Json
